@@ -18,17 +18,43 @@ func Par(g *G, nprog int) []Program {
 		}
 		// shared operands: large enough for Karatsuba scratch space and for long (recursive) division
 		lx, ly := g.Pick(800, 1500, 2500, 4200), g.Pick(600, 1000, 1950, 2300)
+		maxp := 3000
+		if !g.Thor {
+			// the quick tier also runs these programs under the race detector with pure Go kernels (50x slower)
+			lx, ly = g.Pick(400, 800, 1500), g.Pick(300, 600, 1000, 1950)
+			maxp = 900
+		}
+		storm := p%4 == 1 // every goroutine inside recursive long division (divisor >= 100 words) at the same time
+		if storm {
+			lx, ly, k = 2400, 1950, 4
+			regs = []string{"r0", "r1", "r2", "r3", "r4", "r5"}
+		}
 		g.Load("r0", g.Bool(), g.Digits(lx), g.Exp(), 0, g.Mode())
 		g.Load("r1", false, g.Digits(ly), g.Exp(), 0, g.Mode())
 		for i := 0; i < k; i++ {
-			g.Receiver(regs[2+i], g.Pick(60, 400, 1200, 3000), g.Mode())
+			g.Receiver(regs[2+i], g.Pick(60, 400, maxp), g.Mode())
+		}
+		if p%4 == 2 {
+			// a shared operand whose mantissa has zero low words (a short quotient at a large precision):
+			// formatting and arithmetic must not touch its representation
+			g.Load("r1", false, "8", 1, 120, g.Mode())
+			g.Load(regs[2], false, "1", 1, 120, g.Mode())
+			g.Emit(M{"op": "Quo", "z": "r1", "x": regs[2], "y": "r1"})
+			g.Emit(M{"op": "SetPrec", "z": "r1", "p": 130})
 		}
 		var gs []any
 		for i := 0; i < k; i++ {
 			z := regs[2+i]
 			var steps []any
 			ns := 3 + g.R.Intn(4)
+			if p%4 == 2 { // every goroutine formats and adds the operand with zero low words
+				steps = append(steps, M{"op": "Text", "x": "r1", "fmt": g.PickS("e", "f", "g"), "prec": -1}, M{"op": "Add", "z": z, "x": "r0", "y": "r1"})
+			}
 			for j := 0; j < ns; j++ {
+				if storm {
+					steps = append(steps, M{"op": "Quo", "z": z, "x": "r0", "y": "r1"})
+					continue
+				}
 				switch g.R.Intn(10) {
 				case 0, 1:
 					steps = append(steps, M{"op": "Mul", "z": z, "x": "r0", "y": "r1"})
@@ -43,7 +69,7 @@ func Par(g *G, nprog int) []Program {
 				case 7:
 					steps = append(steps, M{"op": "Cmp", "x": "r0", "y": "r1"})
 				case 8:
-					steps = append(steps, M{"op": "Text", "x": g.PickS("r0", "r1"), "fmt": g.PickS("e", "g", "p"), "prec": g.Pick(-1, 20)})
+					steps = append(steps, M{"op": "Text", "x": g.PickS("r0", "r1"), "fmt": g.PickS("e", "g", "p"), "prec": g.Pick(-1, -1, 20)})
 				default:
 					steps = append(steps, M{"op": g.PickS("GobEncode", "Float64", "IsInt"), "x": g.PickS("r0", "r1")})
 				}
